@@ -212,6 +212,13 @@ def run(rep):
     rep.floor('R07.b', 6)
 
     # ---- R07.c -----------------------------------------------------------
+    check_slash_plumbing(rep, 'R07.c')
+    rep.floor('R07.c', 12)
+
+
+def check_slash_plumbing(rep, rule):
+    repo = rep.repo
+    app, route = repo.mod(APP), repo.mod(ROUTE)
     bi = route.func('BoundRoute.__init__')
     sm = [s for s in stmts_of(bi.node) if isinstance(s, ast.Assign) and norm(s.targets[0]) == 'self.slash_mode']
     ok = False
@@ -225,46 +232,45 @@ def run(rep):
             pass
         ok = any(has_cond(conds(bi, s), lambda t: norm(t) == 'inherit_slashes', True) and norm(s.value) == '%s.slash_mode' % bi.params()[2] for s in sm) and \
             any(has_cond(conds(bi, s), lambda t: norm(t) == 'inherit_slashes', False) and norm(s.value) == '%s.slash_mode' % bi.params()[1] for s in sm)
-    rep.check('R07.c', fkey(bi, 'self.slash_mode'), ok, 'slash_mode = app.slash_mode if inherit_slashes else route.slash_mode' if ok else
+    rep.check(rule, fkey(bi, 'self.slash_mode'), ok, 'slash_mode = app.slash_mode if inherit_slashes else route.slash_mode' if ok else
               'BoundRoute.slash_mode is not selected by inherit_slashes between the application\'s and the route\'s mode', route, sm[0] if sm else bi.node)
     cp = [c for c in walk_body(bi.node) if isinstance(c, ast.Call) and call_name(c) == '_compile_path_pattern']
     ok = len(cp) == 1 and [norm(a) for a in cp[0].args] == ['self.pattern', 'self.slash_mode'] and sm and \
         cfg_of(bi).must_pass(cfg_of(bi).nodes_of_all(sm), cfg_of(bi).entry, cfg_of(bi).nodes_of(stmt_of(route, cp[0])))
-    rep.check('R07.c', fkey(bi, 'pattern compiled with the mode'), ok, 'the bound pattern is compiled for the selected mode' if ok else
+    rep.check(rule, fkey(bi, 'pattern compiled with the mode'), ok, 'the bound pattern is compiled for the selected mode' if ok else
               'the bound pattern is not compiled with self.slash_mode', route, cp[0] if cp else bi.node)
-    popped, written = bind_kwarg_agreement(rep, 'R07.c')
+    popped, written = bind_kwarg_agreement(rep, rule)
     d = popped.get('inherit_slashes')
     ok = isinstance(d, ast.Constant) and d.value is True
-    rep.check('R07.c', fkey(bi, 'inherit_slashes default'), ok, 'routes inherit the application\'s mode by default' if ok else
+    rep.check(rule, fkey(bi, 'inherit_slashes default'), ok, 'routes inherit the application\'s mode by default' if ok else
               'inherit_slashes does not default to True', route, bi.node)
     nb = route.func('NullRoute.bind')
     ok = any(isinstance(s, ast.Assign) and norm(s.targets[0]) == "kw['inherit_slashes']" and isinstance(s.value, ast.Constant) and s.value.value is False
              for s in stmts_of(nb.node))
-    rep.check('R07.c', fkey(nb, 'inherit_slashes=False'), ok, 'the null route never inherits (stays rewrite): 404/405 are not redirected' if ok else
+    rep.check(rule, fkey(nb, 'inherit_slashes=False'), ok, 'the null route never inherits (stays rewrite): 404/405 are not redirected' if ok else
               'NullRoute.bind no longer forces inherit_slashes=False', route, nb.node)
     ni = route.func('NullRoute.__init__')
     sup = [c for c in walk_body(ni.node) if isinstance(c, ast.Call) and call_tail(c) == '__init__']
     ok = len(sup) == 1 and norm(kwarg(sup[0], 'slash_mode')) == 'S_REWRITE'
-    rep.check('R07.c', fkey(ni, 'S_REWRITE'), ok, 'the null route is a rewrite-mode route' if ok else 'NullRoute is not constructed with S_REWRITE', route, ni.node)
+    rep.check(rule, fkey(ni, 'S_REWRITE'), ok, 'the null route is a rewrite-mode route' if ok else 'NullRoute is not constructed with S_REWRITE', route, ni.node)
     sa = app.func('SubApplication.__init__')
     a = sa.node.args
     dflt = dict(zip([x.arg for x in a.args][len(a.args) - len(a.defaults):], a.defaults))
     ok = isinstance(dflt.get('inherit_slashes'), ast.Constant) and dflt['inherit_slashes'].value is True and \
         any(isinstance(s, ast.Assign) and norm(s.targets[0]) == 'self.inherit_slashes' and norm(s.value) == 'inherit_slashes' for s in stmts_of(sa.node))
-    rep.check('R07.c', fkey(sa, 'inherit_slashes'), ok, 'SubApplication(inherit_slashes=True) stores its flag' if ok else
+    rep.check(rule, fkey(sa, 'inherit_slashes'), ok, 'SubApplication(inherit_slashes=True) stores its flag' if ok else
               'SubApplication does not store inherit_slashes (default True)', app, sa.node)
     ba = app.func('SubApplication.bind_all')
     ok = any(isinstance(c, ast.Call) and norm(c.func) == 'kwargs.setdefault' and c.args and isinstance(c.args[0], ast.Constant)
              and c.args[0].value == 'inherit_slashes' and norm(c.args[1]) == 'self.inherit_slashes' for c in walk_body(ba.node))
-    rep.check('R07.c', fkey(ba, 'inherit_slashes forwarded'), ok, 'the embedding flag is forwarded to every re-bound route' if ok else
+    rep.check(rule, fkey(ba, 'inherit_slashes forwarded'), ok, 'the embedding flag is forwarded to every re-bound route' if ok else
               'bind_all does not forward self.inherit_slashes', app, ba.node)
     for mod, q, want in ((app, 'Application.__init__', 'S_REDIRECT'), (route, 'Route.__init__', 'S_REDIRECT')):
         fi = mod.func(q)
         pops = [c for c in walk_body(fi.node) if isinstance(c, ast.Call) and norm(c.func) == 'kwargs.pop' and c.args and
                 isinstance(c.args[0], ast.Constant) and c.args[0].value == 'slash_mode']
         ok = len(pops) == 1 and len(pops[0].args) == 2 and norm(pops[0].args[1]) == want
-        rep.check('R07.c', fkey(fi, 'slash_mode default'), ok, '%s defaults to %s' % (q, want) if ok else '%s slash_mode default changed' % q, mod, fi.node)
+        rep.check(rule, fkey(fi, 'slash_mode default'), ok, '%s defaults to %s' % (q, want) if ok else '%s slash_mode default changed' % q, mod, fi.node)
     consts = dict((n, repo.try_fold(ast.Name(id=n, ctx=ast.Load()), route)) for n in ('S_REDIRECT', 'S_REWRITE', 'S_STRICT'))
     ok = len(set(consts.values())) == 3 and None not in consts.values()
-    rep.check('R07.c', '%s::slash mode constants' % ROUTE, ok, 'three distinct slash modes: %s' % consts if ok else 'slash mode constants collide: %s' % consts, route)
-    rep.floor('R07.c', 12)
+    rep.check(rule, '%s::slash mode constants' % ROUTE, ok, 'three distinct slash modes: %s' % consts if ok else 'slash mode constants collide: %s' % consts, route)
